@@ -38,6 +38,9 @@ def main():
             jobs.append(('eval %r k=%d release profile (overflow wraps)' % (sh, kk), unit_sketch, (sh, kk, dict(config=dict(overflow_checks=False)))))
     for sh in [('bin', 'L', 'L'), ('q', 2, 'L'), ('fp', 'L'), ('cc', ('L', 'L')), ('q', 1, ('bin', 'L', 'L'))]:
         jobs.append(('constructor %r k=3' % (sh,), c09.unit_constructor, (sh, 3, {})))
+    # printing panics ("x is not a free variable") exactly when the evaluated diagram mentions a non-free variable
+    for sh in [('fp', ('fp', ('bin', 'L', 'L'))), ('fp', ('fp', 'L')), ('fp', ('q', 1, ('bin', 'L', 'L'))), ('q', 1, ('fp', ('bin', 'L', 'L'))), ('fp', ('bin', 'L', ('fp', 'L')))]:
+        jobs.append(('support of eval within free variables %r k=2' % (sh,), c09.unit_free, (sh, 2, {})))
     try:
         import printcore
         jobs += printcore.jobs(quick)
@@ -47,7 +50,7 @@ def main():
                        bounds={'token_sequences': '0..%d tokens over the full alphabet' % (6 if quick else 8), 'number_literals': '<= 24 digits', 'identifier_text': '<= 8 characters',
                                'sketches': len(shapes), 'atoms_k': 3},
                        assumptions=props.COMMON_ASSUME + ['regex engine modelled by its contract (see C08)', 'read_to_string succeeds (invalid UTF-8 is rejected there with an Err: an I/O contract)'],
-                       uncovered=['byte-level input and invalid UTF-8 (rejected by read_to_string before the crate sees it)', 'nesting depth 200 / 64 KiB scale', 'clap option parsing, file handling, gnuplot',
+                       uncovered=['byte-level input and invalid UTF-8 (rejected by read_to_string before the crate sees it)', 'nesting depth 200 / 64 KiB scale', 'clap option parsing, file handling, gnuplot', 'the Graphviz exports -p / -d (see C14: not applicable)',
                                   'non-ASCII digits: the regex class \\d and str::parse are library code outside the model'],
                        extra_jobs=jobs)
     sys.exit(rep.finish())
